@@ -25,12 +25,12 @@ variable {α : Type} [Field α] [LinearOrder α] [IsStrictOrderedRing α]
 /-! ### A. the sweeps' laws are the documented laws -/
 
 /-- Voltage law, every kind but the mux.  Hypotheses: accepted parameters; live supply (no off flag);
-    for a Source the exclusion of finding F01; for a MOSFET bridge "polarity kept". -/
+    for a Source the exclusion of finding F01.  ("Polarity kept" is implied by the `.ok` outcome:
+    every passive series element raises `Unstable` otherwise.) -/
 theorem volt_refines_spec_partial (c : Comp α) (hc : c.Phys) (vi : List α) (io : α)
     (ph : PhaseCtx α) (off : List Bool) (hoff : off0 off = false)
     (hmux : c.kind ≠ .pmux)
     (hsrc : c.kind = .source → 0 ≤ c.vo ∨ c.rs = 0 ∨ io = 0)
-    (hrect : c.kind = .rectifier → c.diode = false → c.rsList = none ∧ 2 * c.rs * io ≤ |vi.headD 0|)
     {v : α} {b : Bool} (h : c.solvOutpVolt vi io ph off = .ok (v, b)) :
     v = specVo c 0 (vi.headD 0) io ph := by
   have hrs := abs_of_nonneg hc.rs
@@ -45,7 +45,9 @@ theorem volt_refines_spec_partial (c : Comp α) (hc : c.Phys) (vi : List α) (io
     · simp [hi] at h ⊢; exact h.1.symm
     · by_cases hz : isZ c.vo = true
       · simp [hi, hz] at h ⊢; exact h.1.symm
-      · simp only [hi, hz, Bool.false_eq_true, if_false, Except.ok.injEq, Prod.mk.injEq, Bool.or_self] at h ⊢
+      · simp only [hi, hz, Bool.false_eq_true, if_false, Bool.or_self] at h ⊢
+        split_ifs at h with he
+        simp only [Except.ok.injEq, Prod.mk.injEq] at h
         rw [← h.1]
         rcases hsrc hk with h0 | h0 | h0
         · have : c.vo ≠ 0 := by intro e; exact hz ((isZ_iff _).mpr e)
@@ -103,7 +105,7 @@ theorem volt_refines_spec_partial (c : Comp α) (hc : c.Phys) (vi : List α) (io
       · simp [hz, hi] at h ⊢; exact h.1.symm
       · simp only [hz, hi, Bool.false_eq_true, if_false, Bool.or_self] at h ⊢
         have hne : vi0 ≠ 0 := by intro e; exact hz ((isZ_iff _).mpr e)
-        split_ifs at h with hneg
+        split_ifs at h with hpos hneg
         · simp only [Except.ok.injEq, Prod.mk.injEq] at h
           rw [← h.1, nsign_of_neg hneg]; ring
         · simp only [Except.ok.injEq, Prod.mk.injEq] at h
@@ -127,10 +129,15 @@ theorem volt_refines_spec_partial (c : Comp α) (hc : c.Phys) (vi : List α) (io
           rw [nsign_of_pos hp] at he ⊢
           rw [abs_of_pos he, abs_of_pos hp]; ring
       · have hd' : c.diode = false := by simpa using hd
-        obtain ⟨hl, hle⟩ := hrect hk hd'
-        simp only [hd', Bool.false_eq_true, if_false, hl] at h ⊢
-        simp only [Except.ok.injEq, Prod.mk.injEq] at h
-        rw [← h.1, abs_of_nonneg (by linarith)]; ring
+        simp only [hd', Bool.false_eq_true, if_false] at h ⊢
+        cases hl : c.rsList with
+        | some l => simp [hl] at h
+        | none =>
+          simp only [hl] at h
+          split_ifs at h with hpos
+          simp only [Except.ok.injEq, Prod.mk.injEq] at h
+          have hp : 0 < |vi0| - 2 * c.rs * io := by simpa using hpos
+          rw [← h.1, abs_of_pos hp]; ring
 
 end C01
 end SysLoss
